@@ -8,6 +8,7 @@ import Verif.Model.Resources
 import Verif.Driver.Codec
 import Verif.Driver.ExecEnv
 import Verif.Driver.LogQLCodec
+import Verif.Driver.MetricCodec
 import Verif.Gen.Offload
 /-! Line-protocol driver: one request per line on stdin, one reply per line on stdout.
 Core-only (no Mathlib), compiled as `lean_exe driver`. -/
@@ -106,6 +107,17 @@ def handle (req : Sexp) : Sexp :=
       | .ok es => LogQLCodec.streamsOut (LogQL.group es)
       | .error _ => .list [sym "err", sym "build"]
     | _ => .list [sym "bad-op"]
+  | some "metriceval", [e, recs, st, en, step] =>
+    let ex := MetricCodec.expr e
+    if !ex.2 then .list [sym "err", sym "build"] else
+    let p : Metric.Params := ⟨st.toInt, en.toInt, step.toInt⟩
+    let instant := p.start == p.end_ && p.step == 0
+    match Metric.eval ExecEnv.env (recs.items.map LogQLCodec.recOf) p ex.1 with
+    | .error .build => .list [sym "err", sym "build"]
+    | .error .unsupported => .list [sym "err", sym "unsupported"]
+    | .ok steps =>
+      .list (sym "ok" :: sym (if instant then "vector" else "matrix") ::
+        (Metric.readSteps instant steps).map MetricCodec.seriesOut)
   | _, _ => .list [sym "bad-op"]
 
 partial def loop (h : IO.FS.Stream) (out : IO.FS.Stream) : IO Unit := do
